@@ -80,6 +80,9 @@ func buildC07(seed int64, thorough bool) (*c07World, error) {
 			specs = append(specs, v)
 		default:
 			t := GenTable(r, 1+r.Intn(3), 1+r.Intn(30), []int{0}, 0)
+			if r.Intn(5) == 0 {
+				t.Rows = nil // a header-only table: no blocks, an empty table index
+			}
 			specs = append(specs, t)
 		}
 	}
